@@ -250,10 +250,21 @@ class Extractor:
                     continue
                 params.append(f"{pat}: {self._ty(ty)}")
         ret = self._ty(a.ret)
+        infallible_as_ok = False
+        if ret == "()" and re.search(r"\br\.is_(err|ok)\(\)", contract or ""):
+            # R18: the contract speaks about refusal (`r.is_err()`) but the production is written infallible (`=> {B}` where the
+            # contract's author saw `=>? {B}`): it is presented as the fallible production that never refuses, `{ B; Ok(()) }` --
+            # LALRPOP's own reading of `=>`.  The refusal clauses are then refuted instead of the unit being rejected.
+            if re.search(r"\breturn\b", a.body):
+                raise Undecided(f"{rel}: `{sig}`: infallible production with a `return` statement: outside rewrite R18")
+            ret, infallible_as_ok = "Result<(), ParseError>", True
         fsig = f"fn {name}({', '.join(params)}) -> {ret}" if ret != "()" else f"fn {name}({', '.join(params)})"
         self.rewrites.append(f"{rel}: `{sig}` (__action{a.n}): R1")
         self.functions.append(f"{rel}::[{sig}]")
         body = a.body
+        if infallible_as_ok:
+            body = "{ " + body.strip() + ";\n    Ok(()) }"
+            self.rewrites.append(f"{rel}: `{sig}`: R18 infallible production presented as the fallible one that never refuses (`{{ B; Ok(()) }}`), because its contract has refusal clauses")
         for pat, calls in fnptr_calls:
             body = re.sub(r"\b" + re.escape(pat) + r"\(\s*vm\s*\)", "verif_fnptr_apply(vm)", body)
             self.rewrites.append(f"{rel}: `{sig}`: R17 function-pointer parameter `{pat}` dropped, {calls} call(s) `{pat}(vm)` -> verif_fnptr_apply(vm) (a stub with an UNINTERPRETED effect on the whole machine)")
